@@ -117,8 +117,9 @@ def client_exhaustive_instances(ctx):
             # three dials of ONE destination: which waiter takes over is the scheduler's choice
             inst("dial3same", MaxDial=3, MaxPerDest=3, answers=("ok", "status", "reset"), faults=("nsfail", "upfail"),
                  features=("cancel", "time")),
-            inst("all", MaxDial=2, MaxIn=2, MaxAcc=1, answers=("ok", "oklim", "status", "reset"), stops=("ok", "oklim", "badtype"),
-                 faults=("nsfail", "upfail", "upfail2", "awfail"), features=("time", "close", "cancel", "dblclose")),
+            # both directions, time, Close, cancellation and second Closes together
+            inst("all", MaxDial=2, MaxIn=1, MaxAcc=1, answers=("ok", "status"), stops=("ok", "badtype"),
+                 faults=("upfail2", "awfail"), features=("time", "close", "cancel", "dblclose")),
         ]
     return out
 
@@ -208,6 +209,31 @@ def _exhaustive(args):
     return {"inst": name, "states": r.distinct, "generated": r.generated, "wall": r.wall, "cmd": r.cmd}
 
 
+LIVE = {
+    # instance -> liveness properties (an empty slot set would make a property a tautology, which TLC refuses)
+    "liveaccept": "StopDecided",
+    "livedial": "DialDecided WaiterDecided",
+}
+
+
+def live_instances():
+    return [
+        inst("liveaccept", relays=("r1",), MaxDial=0, MaxIn=2, MaxAcc=1, stops=("ok", "badtype"), faults=("awfail",), features=("time", "close", "late")),
+        inst("livedial", answers=("ok", "status", "garbage"), faults=("nsfail",), features=("time", "cancel")),
+    ]
+
+
+def _live(args):
+    """Liveness under weak fairness of Tick (time passes): whatever waits on a timer is decided."""
+    ctx, (name, consts, _hdr, _second) = args
+    cfg = tlc.subst_cfg("C11cl_MC.cfg", consts, [("INIT Init\nNEXT Next\nVIEW View\n", "SPECIFICATION LiveSpec\n"), ("CONSTRAINT HopBound\n", ""),
+                                                 (INV, ""), (PROPS, "PROPERTIES " + LIVE[name])])
+    r = tlc.run(ctx, "C11cl_MC", "gen_%s_live.cfg" % name, cfg_text=cfg, workers=1, timeout=900, name="live" + name)
+    if not r.ok:
+        raise MachineryError("design-level failure in C11cl_Client %s: liveness %s violated\n%s" % (name, r.violated, r.out[-2500:]))
+    return {"inst": name, "states": r.distinct, "generated": r.generated, "wall": r.wall, "cmd": r.cmd, "liveness": LIVE[name]}
+
+
 def _finding_one(args):
     """The tag clause K6 alone on the instance with second Closes, for one value of CloseOnce."""
     ctx, (name, consts, _hdr, _second), once = args
@@ -292,7 +318,8 @@ def run_part(ctx, thorough):
     mixed = [i for i in rinsts if i[0] == "mixed"][0]
     big = {"accept": 0, "dial3": 0, "all": 0, "dial3same": 0, "mixed3": 1, "accept2": 1, "dial": 2}
     jobs = [(_replay_instance, (ctx, i, beh)) for i in rinsts] + [(_exhaustive, (ctx, i, 1)) for i in einsts] + \
-           [(_finding_one, (ctx, mixed, once)) for once in ("TRUE", "FALSE")] + [(_reserve_instance, (ctx, beh))]
+           [(_finding_one, (ctx, mixed, once)) for once in ("TRUE", "FALSE")] + [(_reserve_instance, (ctx, beh))] + \
+           [(_live, (ctx, i)) for i in live_instances()]
     jobs.sort(key=lambda j: big.get(j[1][1][0] if isinstance(j[1][1], tuple) else "", 9))
     # 4 lanes x 1 TLC worker; the model-free scenarios (and with them the build of the harness) run meanwhile
     with cf.ProcessPoolExecutor(max_workers=4) as pt, cf.ProcessPoolExecutor(max_workers=1) as pg:
@@ -300,7 +327,8 @@ def run_part(ctx, thorough):
         results = list(pt.map(_job, jobs))
         direct = fg.result()
     rres = [r for r in results if isinstance(r, dict) and "edges" in r and r["inst"] != "reserve"]
-    eres = [r for r in results if isinstance(r, dict) and "edges" not in r]
+    eres = [r for r in results if isinstance(r, dict) and "edges" not in r and "liveness" not in r]
+    lres = [r for r in results if isinstance(r, dict) and "liveness" in r]
     rsv = [r for r in results if isinstance(r, dict) and r["inst"] == "reserve"][0]
     finding = _finding_verdict(dict(r for r in results if isinstance(r, tuple)))
     log("C11cl: graphs and walks done at %.1fs" % ctx.wall())
@@ -332,14 +360,15 @@ def run_part(ctx, thorough):
     div += classify_mismatches(ctx, rv, "reserve")
     if not rv["mismatches"] and rv["distinct"] < rsv["edges"]:
         raise MachineryError("Reserve replay executed %d distinct transitions of %d" % (rv["distinct"], rsv["edges"]))
-    states = sum(r["states"] for r in rres + eres + [rsv])
-    trans = sum(r["generated"] for r in rres + eres + [rsv])
+    states = sum(r["states"] for r in rres + eres + lres + [rsv])
+    trans = sum(r["generated"] for r in rres + eres + lres + [rsv])
     log("C11cl: client replay %s; exhaustive %s; %d replay transitions, %d steps; L2 %d"
         % ([(r["inst"], r["states"], r["edges"], r["wall"]) for r in rres], [(r["inst"], r["states"], r["generated"], r["wall"]) for r in eres],
            edges_total, res["steps"], div))
     cov = {
         "client_replay_instances": {r["inst"]: {k: r[k] for k in ("states", "generated", "edges", "walks", "steps", "wall")} for r in rres},
         "client_exhaustive_only": {r["inst"]: {k: r[k] for k in ("states", "generated", "wall")} for r in eres},
+        "client_liveness": {r["inst"]: {k: r[k] for k in ("states", "generated", "wall", "liveness")} for r in lres},
         "client_replay_transitions_in_graphs": edges_total, "client_replay_steps_executed": res["steps"],
         "client_replay_distinct_transitions_executed": res["distinct"], "client_transition_kinds": dict(tot),
         "tag_clause_K6": {"intended_behaviour_CloseOnce_TRUE": finding["TRUE"], "code_as_it_is_CloseOnce_FALSE": finding["FALSE"]},
